@@ -18,7 +18,7 @@ function start() {
   z3 = spawn(workerData.z3, ['-in'], { stdio: ['pipe', 'pipe', 'ignore'] });
   buf = '';
   z3.stdout.setEncoding('utf8');
-  z3.stdout.on('data', (d) => { buf += d; const i = buf.indexOf(END); if (i >= 0 && resolver) { const out = buf.slice(0, i); buf = ''; const r = resolver; resolver = null; r(out.replace(/"\\s*$/, '')); } });
+  z3.stdout.on('data', (d) => { buf += d; const i = buf.indexOf(END); if (i >= 0 && resolver) { const out = buf.slice(0, i); buf = ''; const r = resolver; resolver = null; r(out.replace(/(^|\\n)"\\s*$/, '$1')); } });
   z3.on('exit', () => { z3 = null; if (resolver) { const r = resolver; resolver = null; r('(error "solver process died")'); } });
   z3.stdin.on('error', () => {});
   ctrl[2] = z3.pid;
